@@ -425,6 +425,8 @@ Fixpoint parse_layers (N : nat) (domain_size : nat) (layers : list proof_layer)
   match layers with
   | [] => Some (Some ([], []))
   | pl :: rest =>
+    (* `if domain_size < folding_factor { return Err(..) }` (fix d92dc82) *)
+    if domain_size <? N then Some None else
     let ds := domain_size / N in
     match parse_layer N ds pl with
     | None => None
